@@ -223,7 +223,7 @@ namespace occa {
         union_ = new dtypeUnion_t();
       }
 
-      bytes_ += (dtype.bytes_ * tupleSize_);
+      bytes_ += (dtype.bytes() * tupleSize_);
 
       if (tupleSize_ == 1) {
         union_->addField(field, dtype);
@@ -235,7 +235,7 @@ namespace occa {
         struct_ = new dtypeStruct_t();
       }
 
-      bytes_ += (dtype.bytes_ * tupleSize_);
+      bytes_ += (dtype.bytes() * tupleSize_);
 
       if (tupleSize_ == 1) {
         struct_->addField(field, dtype);
@@ -396,7 +396,7 @@ namespace occa {
                          const int size,
                          const bool registered_) {
     dtype_t newType;
-    newType.bytes_ = dtype.bytes_ * size;
+    newType.bytes_ = dtype.bytes() * size;
     newType.tuple_ = new dtypeTuple_t(dtype, size);
     newType.registered = registered_;
     return newType;
